@@ -8,6 +8,13 @@ namespace Rtosc.Midi
 
 /-! ### what one incoming controller value does -/
 
+theorem Cb.fire_addr (c : Cb) (x : Nat) : (c.fire x).addr = c.addr := by
+  unfold Cb.fire
+  split
+  · rfl
+  · split <;> rfl
+
+
 /-- complete description of a non-crashing `cc` step in terms of the RT half's binding -/
 theorem cc_step_spec {P s id val s' out} (h : step P s (.cc id val) = some (s', out)) :
     (s.rt.binding id = none ∧ out = []) ∨
@@ -640,5 +647,57 @@ theorem unmap_handshake {P s} (hi : Inv P s) (hquiet : s.quiescent) (a : Nat) (k
     refine ⟨s1, s2, h1, (hazard_api s).2.1 a k, h2, hz, hi2, ⟨e2r, by rw [e2q, e1q, hq2]⟩, ?_, ?_⟩
     · intro id; rw [hb]; exact hstop id
     · intro id b hb' hne; rw [hb]; rw [hqb] at hb'; exact hkeep id b hb' hne
+
+/-! ### the history of a concrete run, as data -/
+
+/-- the (state before, op) pairs of a run, most recent first -/
+def histOf (P : List PortSpec) : Sys → List Op → List (Sys × Op)
+  | _, [] => []
+  | s, op :: ops =>
+    match step P s op with
+    | none => []
+    | some (s', _) => histOf P s' ops ++ [(s, op)]
+
+theorem trace_histOf {P : List PortSpec} :
+    ∀ (ops : List Op) (h0 : List (Sys × Op)) (s0 s : Sys) (outs : List (List Msg)),
+      Trace P h0 s0 → (∀ op ∈ ops, op.wf P) → run P s0 ops = some (s, outs) →
+      Trace P (histOf P s0 ops ++ h0) s := by
+  intro ops
+  induction ops with
+  | nil =>
+    intro h0 s0 s outs t _ hr
+    simp only [run, Option.some.injEq, Prod.mk.injEq] at hr
+    obtain ⟨rfl, _⟩ := hr
+    simpa [histOf] using t
+  | cons op ops ih =>
+    intro h0 s0 s outs t hwf hr
+    simp only [run] at hr
+    cases hs : step P s0 op with
+    | none => simp [hs] at hr
+    | some r =>
+      obtain ⟨s1, out⟩ := r
+      simp only [hs] at hr
+      cases hr2 : run P s1 ops with
+      | none => simp [hr2] at hr
+      | some r2 =>
+        obtain ⟨s2, outs2⟩ := r2
+        simp only [hr2, Option.some.injEq, Prod.mk.injEq] at hr
+        obtain ⟨rfl, _⟩ := hr
+        have t1 : Trace P ((s0, op) :: h0) s1 := Trace.step t (hwf op List.mem_cons_self) hs
+        have := ih ((s0, op) :: h0) s1 s2 outs2 t1 (fun o ho => hwf o (List.mem_cons_of_mem _ ho)) hr2
+        simpa [histOf, hs] using this
+
+instance (h : List (Sys × Op)) (id : Nat) : Decidable (Assigned h id) := by
+  unfold Assigned; infer_instance
+
+theorem step_one_msg {P s op} (h : (step P s op).map (fun r => r.2.length) = some 1) :
+    ∃ s' m, step P s op = some (s', [m]) := by
+  cases hs : step P s op with
+  | none => simp [hs] at h
+  | some r =>
+    obtain ⟨s', out⟩ := r
+    simp [hs] at h
+    match out, h with
+    | [m], _ => exact ⟨s', m, rfl⟩
 
 end Rtosc.Midi
